@@ -363,6 +363,18 @@ class CaptureOldAsync(CaptureOld):
     am = T_
 
 
-TRACE_SPECS += [CaptureOld(), CaptureOldAsync()]
-for s in TRACE_SPECS[-2:]:
+class OldGetattr(FnSpec):
+    """Old.__getattr__ (reached only when normal lookup in the instance dictionary fails): a missing snapshot is an
+    AttributeError on every path, never a value (C08: OLD never yields a silent None for a name that was not captured)."""
+    addr = "_checkers.py::Old.__getattr__"
+
+    def ensures_ret(self, c, v):
+        return [("never_returns", z3.BoolVal(False))]
+
+    def ensures_raise(self, c, e):
+        return [("AttributeError", builtin_exc(e.t, "AttributeError", c.pre.ctr))]
+
+
+TRACE_SPECS += [CaptureOld(), CaptureOldAsync(), OldGetattr()]
+for s in TRACE_SPECS[-3:]:
     REG.register(s)
